@@ -93,6 +93,65 @@ def coq_correspondence(ctx, results, name="corr"):
             ctx.broken[-1]["detail"] = {"failing_histories": bad[:5], "item": items[bad[0]][1][:600]}
 
 
+def large_clone_scenario(ctx):
+    """Clones of hundreds of data points (blocked / vectorised bulk additions show only beyond their block size): the clone is
+    built in one call, grown one point at a time, restored from the dictionary form, copied, and moved as a subtree; its cached
+    log_p must be log_prior + the plain sum of its points' grids (numpy, no phyclone code) and all builds must agree on every
+    cached vector and both densities."""
+    import numpy as np
+    from phyclone.data.base import DataPoint
+    from phyclone.tree import Tree
+
+    from ..kernels import make_tree_dist
+
+    rng = np.random.default_rng(ctx.rng.randrange(10**9))
+    G = (2, 5)
+    for size in ((255, 257, 300) if ctx.quick else (100, 255, 256, 257, 300, 511, 513, 700)):
+        pts = [DataPoint(i, np.log(rng.integers(8, 17, size=G) / 16.0)) for i in range(size + 3)]
+        big, small = pts[:size], pts[size:]
+
+        def one_call():
+            t = Tree(G)
+            c = t.create_root_node(children=[], data=small[:1])
+            t.create_root_node(children=[c], data=list(big))
+            t.create_root_node(children=[], data=small[1:])
+            return t
+
+        def grown():
+            t = Tree(G)
+            c = t.create_root_node(children=[], data=small[:1])
+            n = t.create_root_node(children=[c], data=big[:1])
+            for d in big[1:]:
+                t.add_data_point_to_node(d, n)
+            t.create_root_node(children=[], data=small[1:2])
+            t.add_data_point_to_node(small[2], t.labels[small[1].idx])
+            return t
+
+        a = one_call()
+        builds = {"one call": a, "grown point by point": grown(), "from_dict(to_dict())": Tree.from_dict(a.to_dict()), "copy": a.copy()}
+        moved = a.copy()
+        n_big = moved.labels[big[0].idx]
+        sub = moved.get_subtree(n_big)
+        moved.remove_subtree(sub)
+        moved.add_subtree(sub, parent=None)
+        builds["pruned and regrafted"] = moved
+        want_log_p = -np.log(G[1]) + np.sum([d.value for d in big], axis=0)
+        td = make_tree_dist(1.0)
+        ref = None
+        for name, t in builds.items():
+            node = t.labels[big[0].idx]
+            got = np.array(t._graph[t._node_indices[node]].log_p, dtype=float)
+            ctx.case(key=("large-clone", size, name), nontrivial=True)
+            ctx.count("large_clone_builds")
+            if got.shape != want_log_p.shape or not np.allclose(got, want_log_p, rtol=1e-10, atol=1e-8):
+                ctx.fail("C06:large-clone:log_p", "the cached log_p of a clone holding %d data points (%s) differs from log_prior + the sum of its points' grids by %.3g" % (size, name, float(np.max(np.abs(got - want_log_p))) if got.shape == want_log_p.shape else float("nan")), {"clone_size": size, "build": name})
+            obs = (np.array(t.data_log_likelihood, dtype=float), float(td.log_p(t)), float(td.log_p_one(t)))
+            if ref is None:
+                ref = (name, obs)
+            elif not (np.allclose(obs[0], ref[1][0], rtol=1e-10, atol=1e-7) and abs(obs[1] - ref[1][1]) < 1e-6 and abs(obs[2] - ref[1][2]) < 1e-6):
+                ctx.fail("C06:large-clone:builds-disagree", "a tree with a clone of %d data points reports different likelihoods / densities when %s than when built in %s" % (size, name, ref[0]), {"clone_size": size, "builds": [ref[0], name], "log_p": [ref[1][1], obs[1]]})
+
+
 def run(ctx):
     coq.check_property_file(ctx)
     ctx.rule = (
@@ -125,6 +184,7 @@ def run(ctx):
     C07.report_sampler_results(ctx, sres, "C06")
     ctx.extra["sampler_calls_checked"] = sum(sum(r["calls"].values()) for r in sres)
     ctx.log("sampler runs %d, trees checked %d" % (len(sres), ctx.extra["sampler_calls_checked"]))
+    large_clone_scenario(ctx)
     coq_correspondence(ctx, results)
     ctx.assumptions += [
         "the recursion S (compute_log_S) is abstract in the theorems; the executable correspondence instantiates it with an exact truncated convolution + running sum",
